@@ -2,7 +2,7 @@ import Haiway.Model.Disposables
 import Driver.Common
 /-! `hwmodel disposables`: blocks separated by `;`, each `<d1,d2,…> <ok|exc> <interrupted 0|1> <pendingCancel 0|1>` with `d = <e|f|i><o|r>`
 (enter: entered / failed / interrupted; exit: returns / raises).
-out per block: `enters=c,c,… exits=c,c,… args=<0|1|-> body=<0|1> caller=<0|1>` -/
+out per block: `enters=c,c,… exits=c,c,… args=<0|1|-> body=<0|1> caller=<0|1> reach=<positions of the disposables whose cleanup error reaches the caller | ->` -/
 namespace Driver.Disposables
 open Haiway.Disposables
 
@@ -25,7 +25,7 @@ def runBlock (spec : String) : String :=
       let exits := (List.range n).map fun d => toString (count evs (isExit d))
       let args := evs.filterMap fun e => match e with | .exitCall _ w => some w | _ => none
       let arg := if args.isEmpty then "-" else if args.all id then "1" else if args.all (!·) then "0" else "mixed"
-      s!"enters={",".intercalate enters} exits={",".intercalate exits} args={arg} body={count evs isBody} caller={if caller then 1 else 0}"
+      s!"enters={",".intercalate enters} exits={",".intercalate exits} args={arg} body={count evs isBody} caller={if caller then 1 else 0} reach={let r := surfaced ds { interrupted := intr == "1", pendingCancel := pend == "1" }; if r.isEmpty then "-" else ",".intercalate (r.map toString)}"
     | none => "bad-disp"
   | _ => "bad-block"
 
